@@ -125,6 +125,25 @@ def run(ctx: Ctx):
         refines(ctx, f'text_gen.TextBlock.append[{name}]', f'{TG}.TextBlock.append', impl_app, spec_app, mk_app,
                 witness=None, text='append: lines == old lines ++ lines_of(content)')
 
+        def impl_iadd(i, p, a, k):
+            f = i.get_function(f'{TG}.TextBlock.__iadd__')
+            r = i.call_function(f, [a[0], a[1]], {}, p)
+            return (r is a[0], a[0].fields['_lines'])
+
+        refines(ctx, f'text_gen.TextBlock.__iadd__[{name}]', f'{TG}.TextBlock.__iadd__', impl_iadd,
+                lambda i, p, a, k: (True, spec_app(i, p, a, k)), mk_app, witness=None,
+                text='tb += content: the SAME object, lines == old lines ++ lines_of(content)')
+
+        def impl_add(i, p, a, k):
+            f = i.get_function(f'{TG}.TextBlock.__add__')
+            before = ops.canon(a[0].fields['_lines'].term)
+            r = i.call_function(f, [a[0], a[1]], {}, p)
+            return (r is not a[0], ops.canon(a[0].fields['_lines'].term) == before, r.fields['_lines'])
+
+        refines(ctx, f'text_gen.TextBlock.__add__[{name}]', f'{TG}.TextBlock.__add__', impl_add,
+                lambda i, p, a, k: (True, True, spec_app(i, p, a, k)), mk_app, witness=None,
+                text='tb + content: a NEW block, lines == tb.lines ++ lines_of(content), tb unchanged')
+
     # ---- string form and round trip --------------------------------------------------------------------------------
     f_str = I.get_function(f'{TG}.TextBlock.__str__')
 
